@@ -1,18 +1,55 @@
 """C02 - each needed task runs exactly once per invocation; nothing else runs (E2 histories +
 reference closure model over index rows read independently)."""
 from . import _sched_common as S
-from .. import sched
+from .. import sched, common
 
 PROP = "C02"
 RULE = ("generated task DAGs (structured shared-dependency families in both listing orders, all DAGs on <=4 nodes x every dep-list order, random <=8 nodes, mixed kinds) x histories of 1-3 invocations "
         "(earlier invocations of sub-targets create real cached versions; --again) x --jobs x kernel schedules; non-trivial = >=2 tasks executed; distinct = hash(graph, history flags, interleaving)")
 
 
+GIT_KEYS = ("C05:at-least-rule-reran-up-to-date-task", "C05:at-least-rule-reused-too-old-version", "C05:reran-although-compatible-version-exists", "C05:reused-incompatible-version",
+            "C05:again-reused-cache", "C05:at-least-annotated-tag-reruns-exact-match")
+
+
+def git_flag_case(case):
+    """C02 under git and {--again, --at-least, --this-commit}: the observations of the C05 workload
+    (which experiments a real `cond run` starts vs the reference plan) decide 'executes exactly the
+    needed tasks' as well; only the executed-set clauses are taken over."""
+    from . import c05
+    out = c05.eval_case(case)
+    keep = []
+    for v in out["violations"]:
+        if v["key"] in GIT_KEYS:
+            keep.append({"key": "C02:needed-set-differs-under-git-flags", "msg": "[git project] " + v["msg"], "witness": v["witness"]})
+    out["violations"] = keep
+    out["reach"] = {"c02_git_run_checks": out["reach"].get("c05_run_checks", 0), "c02_git_at_least_checks": out["reach"].get("c05_at_least_checks", 0)}
+    out["sig"] = "git-" + str(out.get("sig"))
+    return out
+
+
 def main(tier, n=None):
     plan = [("cache", 1100, 50000, None, 8), ("deps", 300, 10000, None, 8), ("wide", 100, 5000, None, 8)]
-    rep, code = S.run(PROP, tier, "exploration", RULE, plan, ["c02_spawn_checks", "c02_progress_checks", "c02_row_checks", "e1_runs"], n, e1=("cache", 60, 1500, 7))
+    def gitcases(tier_, n_):
+        from . import c05
+        rng = common.rng_for("c02git", common.base_seed())
+        k = 80 if tier_ == "quick" else 1500
+        if n_:
+            k = max(4, n_ // 20)
+        return [dict(c05.gen_case(rng), git_mode="git") for _ in range(k)]
+
+    rep, code = S.run(PROP, tier, "exploration", RULE, plan, ["c02_spawn_checks", "c02_progress_checks", "c02_row_checks", "e1_runs", "c02_git_run_checks", "c02_invalid_definition_runs"], n, e1=("cache", 60, 1500, 7),
+                      post=gitcases, post_fn=git_flag_case)
     return code
 
 
 def replay(path):
+    import json
+    w = json.load(open(path))["witness"]
+    if w.get("engine") == "E4":
+        out = git_flag_case(w["case"])
+        for x in out["violations"]:
+            print(x["msg"])
+            print("VIOLATION property=%s replay=%s" % (PROP, path))
+        return 1 if out["violations"] else 0
     return S.replay(PROP, path)
